@@ -29,6 +29,11 @@ static std::mutex ma, mb;
 static int table[8];
 static long observed[16];
 static std::atomic<int> aw_flag;
+struct Tagged {
+  long idx;
+  long tag;
+};
+static std::atomic<Tagged> tagged;
 static std::atomic<std::shared_ptr<const int>> asp;
 
 void reset() {
@@ -39,6 +44,7 @@ void reset() {
   once_value = 0;
   flag = 0;
   aw_flag = 0;
+  tagged.store(Tagged{0, 0});
   asp.store(nullptr);
   payload = 0;
   for (auto& t : table) t = 0;
@@ -46,7 +52,7 @@ void reset() {
   new (&once) std::once_flag();
 }
 long observed_of(int t) { return observed[t]; }
-int final_counter() { return plain_counter; }
+int final_counter() { return plain_counter + (int)tagged.load().idx; }
 
 // 0: unsynchronised increment -> race
 void s_plain_race(int) {
@@ -255,6 +261,18 @@ void s_fence_missing(int t) {
   }
 }
 
+// 22: 16-byte atomic (tagged index) CAS loop + sleep_for back-off -> no race, counter exact
+void s_tagged_cas(int) {
+  for (int i = 0; i < 4; ++i) {
+    Tagged cur = tagged.load(std::memory_order_acquire);
+    for (;;) {
+      Tagged next{cur.idx + 1, cur.tag + 1};
+      if (tagged.compare_exchange_weak(cur, next, std::memory_order_acq_rel, std::memory_order_acquire)) break;
+      std::this_thread::sleep_for(std::chrono::microseconds(5));
+    }
+  }
+}
+
 static const Scenario kScenarios[] = {
   {"plain_race", s_plain_race},       {"mutex", s_mutex},         {"atomic", s_atomic},
   {"publish_ok", s_publish_ok},       {"publish_relaxed", s_publish_relaxed},
@@ -265,6 +283,7 @@ static const Scenario kScenarios[] = {
   {"atomic_wait", s_atomic_wait},     {"scoped_lock", s_scoped_lock},
   {"atomic_shared_ptr", s_atomic_shared_ptr}, {"cond_wait_for", s_cond_wait_for},
   {"fence_publish", s_fence_publish}, {"fence_missing", s_fence_missing},
+  {"tagged_cas", s_tagged_cas},
 };
 const Scenario* scenarios() { return kScenarios; }
 int n_scenarios() { return (int)(sizeof kScenarios / sizeof kScenarios[0]); }
